@@ -126,7 +126,7 @@ def build_census(seed: int, nworlds: int, programs: list[dict], all_masks: bool)
     targets = {}
     costs = workload._costs()  # pylint: disable=protected-access
     for b in programs:
-        derived = b.get("src") in ("wide", "twin")
+        derived = b.get("src") in ("wide", "twin", "fat")
         if derived and not all_masks and workload.cost_of(b["id"], costs) > QUICK_DERIVED_STEPS:
             continue  # the most expensive derived programs are left to the thorough tier (decided by committed data)
         for mask, mn in ((workload.DEFAULT, "d"), (workload.ALL, "a")):
